@@ -80,6 +80,41 @@ MUTANTS = [
     ("c04-remove-parent-overlap", "C04", "C04.RCB-alias", N,
      "        parent_indices.my_parent_index_in_child_at_index[child_index as usize] = -1;\n        drop(parent_indices);\n",
      "        parent_indices.my_parent_index_in_child_at_index[child_index as usize] = -1;\n"),
+    # ---- C05
+    ("c05-var-no-necessary-check", "C05", "C05.GUARD-insert", "src/var.rs",
+     "            if watch.is_necessary() && !watch.is_in_recompute_heap() {", "            if !watch.is_in_recompute_heap() {"),
+    ("c05-remove-children-no-check", "C05", "C05.PDOM-release", N,
+     "            child.remove_parent(index, self.as_parent_dyn_ref());\n            child.check_if_unnecessary(state);",
+     "            child.remove_parent(index, self.as_parent_dyn_ref());"),
+    ("c05-unnecessary-stays-in-heap", "C05", "C05.PDOM-release", N,
+     "        debug_assert!(!self.needs_to_be_computed());\n        if self.is_in_recompute_heap() {\n            state.recompute_heap.remove(self.packed());\n        }\n    }\n    fn is_in_recompute_heap",
+     "        debug_assert!(!self.needs_to_be_computed());\n    }\n    fn is_in_recompute_heap"),
+    ("c05-stabilise-start-no-unlink", "C05", "C05.PDOM-release", "src/state.rs",
+     "        self.add_new_observers();\n        self.unlink_disallowed_observers();", "        self.add_new_observers();"),
+    ("c05-make-stale-unnecessary", "C05", "C05.GUARD-insert", N,
+     "                if self.is_necessary() && !self.is_in_recompute_heap() {\n                    let t = self.state();",
+     "                if !self.is_in_recompute_heap() {\n                    let t = self.state();"),
+    ("c05-eager-mapper-in-add-parent", "C05", "C05.WMC-user", N,
+     "        if !was_necessary {\n            self.became_necessary(state);\n        }\n        if let Some(Kind::Expert(expert)) = p.kind() {",
+     "        if !was_necessary {\n            self.became_necessary(state);\n        }\n        if let Some(Kind::Map(m)) = p.kind() {\n            if let Some(v) = self.value_as_any() {\n                let _ = (m.mapper.borrow_mut())(&*v);\n            }\n        }\n        if let Some(Kind::Expert(expert)) = p.kind() {"),
+    # ---- C06
+    ("c06-swap-cutoff-args", "C06", "C06.DATA-order", N,
+     "            .map_or(true, |old| !cutoff.should_cutoff(&**old, value.as_ref()));",
+     "            .map_or(true, |old| !cutoff.should_cutoff(value.as_ref(), &**old));"),
+    ("c06-unconditional-change", "C06", "C06.DATA-gate", N,
+     "            old_value_opt.as_ref().map(|t| &**t),\n            should_change,", "            old_value_opt.as_ref().map(|t| &**t),\n            should_change || true,"),
+    ("c06-no-never", "C06", "C06.PDOM-never", "src/incr.rs",
+     "        Incremental::<()>::set_cutoff(&*lhs_change, Cutoff::Never);\n", ""),
+    ("c06-swap-always-never", "C06", "C06.DTAB-kinds", "src/cutoff.rs",
+     "            Self::Always => true,\n            Self::Never => false,", "            Self::Always => false,\n            Self::Never => true,"),
+    ("c06-downcast-fail-true", "C06", "C06.DTAB-kinds", "src/cutoff.rs",
+     "                    let Some(a) = a.as_any().downcast_ref::<T>() else {\n                        return false;",
+     "                    let Some(a) = a.as_any().downcast_ref::<T>() else {\n                        return true;"),
+    ("c06-mapref-default-false", "C06", "C06.DTAB-mapref", N,
+     "                let did_change = self_old.map_or(true, |old| {", "                let did_change = self_old.map_or(false, |old| {"),
+    ("c06-cutoff-changed-at", "C06", "C06.DATA-gate", N,
+     "        } else {\n            tracing::info!(\"cutoff applied to value change\");",
+     "        } else {\n            self.changed_at.set(state.stabilisation_num.get());\n            tracing::info!(\"cutoff applied to value change\");"),
     # ---- C09
     ("c09-changed-changed-skip", "C09", "C09.DTAB-run", "src/node_update.rs",
      "                (Previously::Changed, NodeUpdateDelayed::Necessary)\n                | (Previously::Necessary, NodeUpdateDelayed::Necessary)",
